@@ -245,6 +245,7 @@ class State:
         s = State(self.env, self.guards, self.events)
         if extra_guard is not None:
             s.guards.append(extra_guard)
+            s.events.append(("guard", extra_guard))   # branch decisions are ordered with the effects on each path
         return s
 
 
@@ -612,6 +613,12 @@ class Summarizer:
             r = base.get(vkey(idx))
             if r is not None:
                 return r
+        if isinstance(base, Sym) and isinstance(base.key, tuple) and base.key and base.key[0] == "concat" and isinstance(base.key[2], ListV):
+            # (prefix + [e1..ek])[-j] is e_(k-j+1)
+            c = idx.const_value() if isinstance(idx, RF) else None
+            tail = base.key[2].items
+            if c is not None and c.denominator == 1 and -len(tail) <= c < 0:
+                return tail[int(c)]
         if isinstance(base, Sym) and isinstance(base.key, tuple) and base.key and base.key[0] == "listcomp":
             # [f(x) for x in it][i]  ==  f(it[i])
             return replace_bound(base.key[1], self.subscript(base.key[2], idx))
